@@ -177,11 +177,13 @@ func RunC07Pure(ctx *core.Ctx) {
 					ctx.Fail("L1", "pure-panic", fmt.Sprintf("panic in bloom/xxhash primitives: %v", p), fmt.Sprintf("worker %d", wi))
 				}
 			}()
-			nHash := ctx.Scale(60000, 1200000) / workers
-			nFixed := ctx.Scale(30000, 600000) / workers
-			nMulti := ctx.Scale(40000, 800000) / workers
-			nFilter := ctx.Scale(50000, 1000000) / workers
-			nEnc := ctx.Scale(30000, 600000) / workers
+			// thorough = 8x quick (was 20x: the whole of C07 thorough cost ~96 CPU-minutes; budget is 10 min
+			// of wall time on 16 cores for both builds together)
+			nHash := ctx.Scale(60000, 480000) / workers
+			nFixed := ctx.Scale(30000, 240000) / workers
+			nMulti := ctx.Scale(40000, 320000) / workers
+			nFilter := ctx.Scale(50000, 400000) / workers
+			nEnc := ctx.Scale(30000, 240000) / workers
 			if wi == 0 { // every boundary length once, deterministically
 				for _, n := range c07Lens {
 					buf := make([]byte, n)
